@@ -913,6 +913,9 @@ class BaseConnector:
                 self._cleanup_closed_transports.append(transport)
             return
 
+        # Nothing is awaited from a pooled connection: a request writer that
+        # finished after its response was complete may have armed the read timer.
+        protocol._drop_timeout()
         protocol.idle = True
         self._conns[key].append((protocol, monotonic()))
 
